@@ -149,3 +149,10 @@ pub fn tokenize(input: &str) -> Res<Vec<(String, String, usize, usize)>> {
 pub fn execute(input: &str, ctx: expression_engine::Context) -> Res<expression_engine::Value> {
     guarded(|| expression_engine::execute(input, ctx).map_err(|e| format!("{:?}", e)))
 }
+
+/// a second handle to the same context (the public field is the shared map)
+pub fn share(ctx: &expression_engine::Context) -> expression_engine::Context {
+    let mut c = expression_engine::Context::new();
+    c.0 = ctx.0.clone();
+    c
+}
